@@ -28,6 +28,8 @@ def harness(ctx, cases, cfgs, what, ncorrupt=0, timeout=800):
     if cfgs:
         env["VERIF_CFG"] = cfgs
     r = ctx.gotest("proxy/tcp", ["proxy/tcp/c10_test.go"], "^TestVerifC10$", env=env, timeout=timeout)
+    if crashed(ctx, r, "extractor"):
+        return None
     return r if ctx.need_go_ok(r, what) else None
 
 
@@ -36,6 +38,24 @@ def glue(ctx, cases, what, only=False, timeout=600):
     if only:
         env["VERIF_GLUE_ONLY"] = "1"
     r = ctx.gotest("proxy/tcp", ["proxy/tcp/c10_test.go", "proxy/tcp/c10glue_test.go"], "^TestVerifC10Glue$", env=env, timeout=timeout)
+    if crashed(ctx, r, "glue"):
+        return None
+    return r if ctx.need_go_ok(r, what) else None
+
+
+def crashed(ctx, g, sub):
+    """a panic in the code under test that kills the test process is a verdict ('never panics'), not a broken harness"""
+    if g.summary is None and not g.build_failed and not g.timed_out and ("panic:" in g.out or "fatal error:" in g.out):
+        i = max(g.out.find("panic:"), 0)
+        ctx.violation({"part": sub, "clause": "crash"}, "the process crashed:\n" + g.out[i:i + 3000], replay={"sub": sub + "-crash", "case": None})
+        return True
+    return False
+
+
+def glue_reject(ctx, cases, what, timeout=600):
+    r = ctx.gotest("proxy/tcp", ["proxy/tcp/c10_test.go", "proxy/tcp/c10glue_test.go"], "^TestVerifC10GlueReject$", env={"VERIF_IN": cases}, timeout=timeout)
+    if crashed(ctx, r, "glue-reject"):
+        return None
     return r if ctx.need_go_ok(r, what) else None
 
 
@@ -68,6 +88,8 @@ def run(ctx):
         "routing: the specification's table has routes for example.com and a.example; server names that differ from a routed host by a control character, a line break, a non-UTF-8 byte "
         "or a tail of DEL bytes have no route, one that differs by letter case has; checked on lookupHostFn / lookupHostMatcher of package main and through tcp.Server + SNIProxy wired with them",
         "sessions (Sessions.tla, shared with C09): up to three connections with small and large hellos through one SNIProxy instance; every connection is routed by the name in its own hello, as soon as that hello is complete",
+        "log.level (TRACE, DEBUG, INFO, WARN, installed like main does) is a dimension of the glue runs with malformed input; a crash of the test process inside the code under test is a violation",
+        "at the glue every input in which a length overruns its container must not be routed (no lookup, no upstream connection), whatever the extractor's partial results",
         "hellos spanning several TLS records are outside the statement ('never exceeds the first TLS record') and not judged; only Go's TLS client generates real hellos",
     ]
     from checks import c09
@@ -143,6 +165,20 @@ def run(ctx):
     for h in rg.of_kind("hang")[:3]:
         ctx.inconclusive("glue: no verdict: %s" % h.get("msg"))
     take(ctx, rg, "c10")
+
+    # the same proxy with the inputs that must be rejected, under every log level fabio can be configured with
+    must = [c for c in cases if c["class"] == "reject" and c["must"] and len(c["bytes"]) < 6000]
+    fr = os.path.join(ctx.tmp, "c10.gluereject")
+    vf.write_ndjson(fr, must)
+    rr = glue_reject(ctx, fr, "C10 glue (rejects)")
+    if rr is None:
+        return
+    ctx.log("glue: %d inputs with a length that overruns its container offered to SNIProxy.ServeTCP under log levels %s: none may be routed; %d failed, %d without verdict"
+            % (rr.summary["ran"], "/".join(sorted(rr.summary["levels"])), rr.summary["fails"], rr.summary["hangs"]))
+    ctx.cover("glue_reject", traces_validated_against_impl=rr.summary["ran"], evaluations=rr.summary["ran"])
+    for h in rr.of_kind("hang")[:3]:
+        ctx.inconclusive("glue (rejects): no verdict: %s" % h.get("msg"))
+    take(ctx, rr, "c10")
 
     # the wiring in package main: lookupHostFn / lookupHostMatcher in front of the real routing table and SNIProxy
     fw = os.path.join(ctx.tmp, "c10.wire")
